@@ -2,7 +2,7 @@
 
 
 def gen_script(rng, maxlen=30, maxdepth=4, fns="fgh", loops=True, reads=True, aug=True, ann=True,
-               p_call=0.28, p_exit=0.2, valmax=None):
+               p_call=0.28, p_exit=0.2, valmax=None, decl=False):
     out = []
     ctr = [0]
 
@@ -94,7 +94,10 @@ def gen_script(rng, maxlen=30, maxdepth=4, fns="fgh", loops=True, reads=True, au
                     out.append(["ret", nv()])
                     return "ret"
                 if k < 0.9:
-                    out.append([rng.choice(["raise", "raise", "raiseb"]), nv()])
+                    if decl and rng.random() < 0.4:
+                        out.append(["decl", 0])          # 'd: int' with nobody supplying d: ptera's name error
+                    else:
+                        out.append([rng.choice(["raise", "raise", "raiseb"]), nv()])
                     return "raise"
                 e = "next" if inloop else "end"
                 out.append([e, 0])
